@@ -106,6 +106,25 @@ Definition touches (t : nat) (e : gevent) : bool :=
   | Spawn t' => Nat.eqb t' t
   end.
 
+(* The EFFECT of a captured configuration on `inverse(y)` (core.py, InverseOperator.mv):
+     solution = lx.linear_solve(A, y, solver=self.config.solver, throw=self.config.solver_throw,
+                                options=self.config.solver_options [preconditioner tagged])
+     jax.debug.callback(self.config.solver_callback, solution); return solution.value
+   `fails s o` abstracts "the solve of the probed system by solver s under options o is not
+   successful" (max_steps reached, breakdown).  lineax raises iff the solve is not successful and
+   throw is set (any value but 0 = False); then no value is returned and the callback line is not
+   reached.  Otherwise the value and the statistics handed to the callback are those of solver s
+   under options o (identified by the harness against an independent reference solve), and
+   callback k is the one that runs.  Every setting is read from the CAPTURED configuration c. *)
+Inductive effect := Raised | Returned (solver options callback : Z).
+Definition mv (fails : Z -> Z -> bool) (c : cfg) : effect :=
+  if fails (c_solver c) (c_options c) && negb (c_throw c =? 0) then Raised
+  else Returned (c_solver c) (c_options c) (c_callback c).
+Definition all_fail : Z -> Z -> bool := fun _ _ => true.
+Definition none_fail : Z -> Z -> bool := fun _ _ => false.
+Definition effects (fails : Z -> Z -> bool) (os : list (option cfg)) : list (option effect) :=
+  map (option_map (mv fails)) os.
+
 (* printable observation for the correspondence harness *)
 Definition show_cfg (c : cfg) : list Z := [c_solver c; c_throw c; c_options c; c_callback c].
 Definition show_obs (o : option cfg) : list Z := match o with Some c => show_cfg c | None => [] end.
@@ -113,3 +132,18 @@ Definition run_single (h : list event) : list (list Z) * list Z :=
   let (s, os) := run init h in (map show_obs os, show_cfg (cur s)).
 Definition run_global (l : list gevent) : list (nat * list Z) :=
   map (fun p => (fst p, show_obs (snd p))) (snd (grun (fun _ => init) l)).
+
+(* effect observation: every observed configuration together with its effect on a probe whose
+   failing (solver, options) pairs are listed in `tbl`, and on a probe on which every solve fails *)
+Definition show_effect (e : effect) : list Z :=
+  match e with Raised => [] | Returned s o k => [s; o; k] end.
+Definition in_tbl (tbl : list (Z * Z)) (s o : Z) : bool :=
+  existsb (fun p => (fst p =? s) && (snd p =? o)) tbl.
+Definition show_fx (tbl : list (Z * Z)) (o : option cfg) : list Z * (list Z * list Z) :=
+  match o with
+  | Some c => (show_cfg c, (show_effect (mv (in_tbl tbl) c), show_effect (mv all_fail c)))
+  | None => ([], ([], []))
+  end.
+Definition run_single_fx (tbl : list (Z * Z)) (h : list event)
+  : list (list Z * (list Z * list Z)) * list Z :=
+  let (s, os) := run init h in (map (show_fx tbl) os, show_cfg (cur s)).
